@@ -4,6 +4,7 @@ Also holds the transaction / subscript generators and the shrinker shared with C
 """
 from ..framework import Prop, mk, guarded, ensure_repo_on_path
 from .. import txfmt
+from . import sighash_hist as H
 
 U32 = (1 << 32) - 1
 I64MAX = (1 << 63) - 1
@@ -275,7 +276,10 @@ class C03(Prop):
             'subscripts from a grammar (CODESEPARATOR start/middle/end/consecutive, 0xab inside direct/PUSHDATA1/2/4 '
             'payloads and as a length byte, scripts that do not parse) x every index 0..|vin| x ALL 256 hash-type bytes; '
             'hash types outside one byte / negative / outside int32; wrapper (ValueError, witness-program assertion); '
-            'every case also observes that the transaction object is unchanged; a subset is re-evaluated under Spec')
+            'every case also observes that the transaction object is unchanged; a subset is re-evaluated under Spec; '
+            'histories: one live CMutableTransaction (and CTransaction) hashed, edited in place (field sets on inputs/'
+            'outpoints/outputs, object replacement, list insert/delete/swap/replace, lock/version/witness), hashed again, '
+            'legacy and witness-v0 interleaved on the same object')
 
     def setup(self):
         ensure_repo_on_path()
@@ -320,6 +324,11 @@ class C03(Prop):
                     [bytes([0, ln]) + b'\x61' * k for ln in (0, 1, 2, 38, 39, 40, 41, 0x7f, 0x80, 0xfe, 0xff)
                      for k in (2, 3, 38, 40, 41)]:
                 yield mk('c03.iswit', sc.hex(), tag='iswit')
+        # (H) histories: ONE live object hashed, edited in place, hashed again (stale memoisation / aliasing)
+        nh = 4800 if big else 320
+        import sys as _sys
+        for _ in range(max(1, nh // nshards)):
+            yield mk('c03.hist', *H.gen_history(rng, _sys.modules[__name__], self.pool, 'legacy', big), tag='history')
         # (1) exhaustive hash-type byte per sampled (tx, script, index)
         for t, scs in self.combos(rng, tier, shard, nshards):
             text = txfmt.show_tx(t)
@@ -344,6 +353,8 @@ class C03(Prop):
 
     # ---- real code ------------------------------------------------------------------------------
     def model_line(self, c):
+        if c['op'] == 'c03.hist':
+            return H.model_line('c03.hist', c)
         if c['op'] in ('c03.raw', 'c03.spec.raw', 'c03.wrapper'):
             return '\t'.join([c['op']] + list(c['args'][1:]))
         return c.line
@@ -377,12 +388,19 @@ class C03(Prop):
             cls, sc, text, idx, ht = a
             return self._with_tx(cls, text, lambda tx: bytes(S.SignatureHash(
                 S.CScript(bytes.fromhex(sc)), tx, int(idx), int(ht))).hex())
+        if op == 'c03.hist':
+            return H.run_history(c, self.C, S, guarded)
         if op == 'c03.fad':
             return guarded(lambda: bytes(S.FindAndDelete(S.CScript(bytes.fromhex(a[0])),
                                                          S.CScript(bytes.fromhex(a[1])))).hex())
         if op == 'c03.iswit':
             return guarded(lambda: 'true' if S.CScript(bytes.fromhex(a[0])).is_witness_scriptpubkey() else 'false')
         raise ValueError(op)
+
+    def agree(self, c, io, mo):
+        if c['op'] == 'c03.hist':
+            return H.agree(io, mo)
+        return io == mo
 
     def nontrivial(self, c, io):
         return True
@@ -401,6 +419,8 @@ class C03(Prop):
                     yield mk(op, cls, sc, text, idx, h2, tag=tag)
             if cls == 'm':
                 yield mk(op, 'i', sc, text, idx, ht, tag=tag)
+        elif op == 'c03.hist':
+            yield from H.shrink_history(mk, op, c)
         elif op in ('c03.fad', 'c03.iswit'):
             for s2 in shrink_script(bytes.fromhex(a[0])):
                 yield mk(op, s2.hex(), *a[1:], tag=tag)
